@@ -390,6 +390,14 @@ func Run(sc Script, rep *kit.Report, cfg RunConfig) (st *State, env *Env, err er
 	if env.FS == nil {
 		env.FS = xfs.NewMem()
 	}
+	var hfs *HookFS
+	for _, op := range sc.Ops {
+		if op.Kind == "gcdel" {
+			hfs = NewHookFS(env.FS)
+			env.FS = hfs
+			break
+		}
+	}
 	st = NewState(sc.Channels)
 	if err = env.OpenDB(); err != nil {
 		return st, env, kit.Fail("open-error", "cesium.Open failed: %v", err)
@@ -417,7 +425,7 @@ func Run(sc Script, rep *kit.Report, cfg RunConfig) (st *State, env *Env, err er
 			cfg.OnStep(i, op, "start", st)
 		}
 		full := false
-		if op.Kind == "read" || op.Kind == "gc" || op.Kind == "delete" {
+		if op.Kind == "read" || op.Kind == "gc" || op.Kind == "delete" || op.Kind == "gcdel" {
 			if discard, berr := barrier(env, st, rep); berr != nil || discard {
 				return st, env, berr
 			}
@@ -428,6 +436,9 @@ func Run(sc Script, rep *kit.Report, cfg RunConfig) (st *State, env *Env, err er
 				EnableAutoCommit: &op.AutoCommit, Sync: &op.Sync}
 			if op.PersistAlways {
 				wc.AutoIndexPersistInterval = cesium.AlwaysIndexPersistOnAutoCommit
+			} else if op.PersistEvery > 0 {
+				wc.AutoIndexPersistInterval = telem.TimeSpan(op.PersistEvery) * telem.Microsecond
+				rep.Class("writer-with-short-persist-interval")
 			}
 			w, oerr := env.DB.OpenWriter(ctx, wc)
 			if oerr != nil {
@@ -552,6 +563,63 @@ func Run(sc Script, rep *kit.Report, cfg RunConfig) (st *State, env *Env, err er
 			}
 			if gerr := execGC(ctx, env, st, cfg, rep, where); gerr != nil {
 				return st, env, gerr
+			}
+			full = true
+		case "wait":
+			// lets a writer's index persistence interval elapse (no effect on the model)
+			time.Sleep(time.Duration(op.A) * time.Microsecond)
+			rep.Class("wait")
+		case "gcdel":
+			// A garbage-collection pass with a delete fired at the moment the collector opens
+			// its first copy file, i.e. after it has scanned the index for that file. The
+			// delete runs on its own goroutine; the collector waits for it a bounded time only
+			// (the delete may legitimately block on the collector's locks and finish after
+			// the pass). Either order is a legal outcome for the model: the delete is applied,
+			// the pass is invisible.
+			if cfg.GC == nil || hfs == nil {
+				return st, env, kit.Fail("script-bug", "gcdel op without GC hook")
+			}
+			var (
+				fired bool
+				derr  error
+				done  = make(chan struct{})
+			)
+			del := op
+			del.Kind = "delete"
+			hfs.SetHook(func(path string, flag int) {
+				if fired || !strings.HasSuffix(path, "_gc") {
+					return
+				}
+				fired = true
+				go func() {
+					defer close(done)
+					derr = execDelete(ctx, env, st, del, rep, where+" (delete fired while gc copies "+path+")")
+				}()
+				select {
+				case <-done:
+					rep.Class("delete-completed-during-gc-copy")
+				case <-time.After(150 * time.Millisecond):
+					rep.Class("delete-blocked-until-gc-finished")
+				}
+			})
+			gerr := execGC(ctx, env, st, cfg, rep, where)
+			hfs.SetHook(nil)
+			if fired {
+				select {
+				case <-done:
+				case <-time.After(60 * time.Second):
+					return st, env, kit.Fail("stall", "%s: a delete fired during a garbage-collection pass did not return within 60 s of the end of the pass", where)
+				}
+				rep.Class("gc-with-delete-in-flight")
+			} else {
+				rep.Class("gcdel-gc-copied-nothing")
+				derr = execDelete(ctx, env, st, del, rep, where)
+			}
+			if gerr != nil {
+				return st, env, gerr
+			}
+			if derr != nil {
+				return st, env, derr
 			}
 			full = true
 		case "xcreate", "xwrite", "xrename", "xdelete":
